@@ -403,9 +403,13 @@ func propC10(w *World, r *Report) {
 				switch calleeName(c) {
 				case "os.Rename", "os.Create", "os.OpenFile", "os.Link", "os.Symlink", "ioutil.WriteFile", "os.WriteFile":
 					n++
-					inStop := fn == stop || reachableFrom(stop, fn, 3)
+					inStop := fn == stop || (reachableFrom(stop, fn, 3) && onlyCalledFrom(w, fn, stop, 0))
 					if calleeName(c) == "os.Rename" {
-						r.Check(inStop, "D2", "rename site in "+fn.Name()+" belongs to the stop path", w.InstrPos(c), "")
+						detail := ""
+						if !inStop {
+							detail = "the function that gives a file its final name can run outside StopRecording's close-then-rename sequence (callers: " + strings.Join(callerNames(w, fn), ", ") + "): a file that was never closed by its writer would get the .cptv name"
+						}
+						r.Check(inStop, "D2", "rename site in "+fn.Name()+" belongs to the stop path", w.InstrPos(c), detail)
 					} else {
 						nm := mkEnv().termOf(c.Call.Args[0])
 						sx := se.suffixOf(nm)
@@ -814,4 +818,34 @@ func runsBeforeServing(w *World, handler *ssa.Function, site ssa.Instruction, de
 	}
 	ok, how := runsBeforeServing(w, handler, sites[0], depth+1)
 	return ok, g.Name() + " <- " + how
+}
+
+// onlyCalledFrom: every call site of fn lies in root or in a function that is itself only called from root (three
+// levels); fn is not used as a value.
+func onlyCalledFrom(w *World, fn, root *ssa.Function, depth int) bool {
+	if fn == root {
+		return true
+	}
+	if depth > 3 {
+		return false
+	}
+	cs := w.callersOf(fn)
+	if len(cs) == 0 {
+		return false
+	}
+	for _, c := range cs {
+		if !onlyCalledFrom(w, c, root, depth+1) {
+			return false
+		}
+	}
+	return true
+}
+
+func callerNames(w *World, fn *ssa.Function) []string {
+	var out []string
+	for _, c := range w.callersOf(fn) {
+		out = append(out, c.Name())
+	}
+	sort.Strings(out)
+	return out
 }
